@@ -97,7 +97,7 @@ fn run(rep: &Report, scratch: &std::path::Path, thorough: bool) -> i32 {
     let small = al.small();
     let full = al.full();
     let mut sets: Vec<(usize, Vec<Vec<Slot>>)> = Vec::new();
-    let step = if thorough { 1 } else { 16 };
+    let step = if thorough { 8 } else { 256 };
     sets.push((1, full.iter().step_by(step).map(|ix| vec![al.slot(ix)]).collect()));
     let mut v2 = Vec::new();
     for (i, a) in mid.iter().enumerate() {
